@@ -106,6 +106,21 @@ thread_local! {
     pub static STALE_FOR_PID: std::cell::RefCell<Option<(PathBuf, Vec<u8>)>> = const { std::cell::RefCell::new(None) };
 }
 
+/// Standard input of the next child that is not a pipe fed by the harness.
+#[derive(Clone, Debug)]
+pub enum OddStdin {
+    /// A directory: every read fails (EISDIR).
+    Directory(PathBuf),
+    /// No descriptor 0 at all.
+    Closed,
+    /// /dev/null: end of input at once.
+    DevNull,
+}
+
+thread_local! {
+    pub static ODD_STDIN: std::cell::RefCell<Option<OddStdin>> = const { std::cell::RefCell::new(None) };
+}
+
 pub fn run_lace(scratch: &Scratch, run: &Run) -> Proc {
     let log_path = scratch.path(".shimlog");
     let _ = std::fs::remove_file(&log_path);
@@ -129,7 +144,11 @@ pub fn run_lace(scratch: &Scratch, run: &Run) -> Proc {
         .env("NO_COLOR", "1")
         .env("HOME", &scratch.dir)
         .env("PATH", "/usr/bin:/bin")
-        .stdin(Stdio::piped())
+        .stdin(match ODD_STDIN.with(|s| s.borrow().clone()) {
+            Some(OddStdin::Directory(dir)) => std::fs::File::open(dir).map(Stdio::from).unwrap_or_else(|_| Stdio::null()),
+            Some(OddStdin::DevNull) | Some(OddStdin::Closed) => Stdio::null(),
+            None => Stdio::piped(),
+        })
         // Pipes, not files: RLIMIT_FSIZE must only bite the files the program writes itself
         .stdout(Stdio::piped())
         .stderr(Stdio::piped());
@@ -152,6 +171,15 @@ pub fn run_lace(scratch: &Scratch, run: &Run) -> Proc {
                     rlim_max: limit,
                 };
                 libc::setrlimit(libc::RLIMIT_FSIZE, &lim);
+                Ok(())
+            });
+        }
+    }
+    let odd = ODD_STDIN.with(|s| s.borrow_mut().take());
+    if matches!(odd, Some(OddStdin::Closed)) {
+        unsafe {
+            cmd.pre_exec(|| {
+                libc::close(0);
                 Ok(())
             });
         }
